@@ -76,6 +76,11 @@ func (x *Exec) hintsAt(short, long string, pos token.Pos, st *State) {
 		}
 		flag := x.u.W.Const("hint.on."+tag, SBool)
 		x.u.hintTags[tag] = flag.S
+		aenv := x.specEnv(st, nil)
+		aenv.noAlts = true
+		if ga, err := aenv.EvalBool(h.C.Expr); err == nil {
+			g = ga
+		}
 		x.assume(Implies(flag, g))
 	}
 }
@@ -842,7 +847,7 @@ func (x *Exec) modularCall(site ssa.Instruction, fn *ssa.Function, fc *FuncContr
 	}
 	if !x.pure {
 		for _, en := range fc.Ensures {
-			env := &SpecEnv{u: u, x: x, pkg: pkg, vars: postVars, bound: map[string]SVal{}, cur: st, old: pre, reach: x.curBlockReach, callSite: true}
+			env := &SpecEnv{u: u, x: x, pkg: pkg, vars: postVars, bound: map[string]SVal{}, cur: st, old: pre, reach: x.curBlockReach, callSite: true, noAlts: true}
 			g, err := env.EvalBool(en.Expr)
 			if err != nil {
 				u.Errorf("%s: ensures %q at call in %s: %v", full, en.Text, x.fn, err)
@@ -899,6 +904,9 @@ func init() {
 	intrinsics = map[string]intrinsic{
 		"sort.Slice":       sortSlice,
 		"sort.SliceStable": sortSlice,
+		"sort.Ints":        sortBasic,
+		"sort.Strings":     sortBasic,
+		"sort.Float64s":    sortBasic,
 		"time.Now":         timeNow,
 		"time.Since":       timeSince,
 		"(time.Time).Sub":  timeSub,
@@ -986,26 +994,12 @@ func lockOp(mode string, acquire bool) intrinsic {
 	}
 }
 
-// sort.Slice(x, less): in-place permutation, sorted w.r.t. less afterwards.
-func sortSlice(x *Exec, site ssa.Instruction, fn *ssa.Function, args []Value, st *State) Value {
-	u := x.u
-	w := u.W
-	// first arg is an interface wrapping the slice
-	ssaArg := site.(ssa.CallInstruction).Common().Args[0]
-	mi, ok := ssaArg.(*ssa.MakeInterface)
-	if !ok {
-		x.fail("sort.Slice: argument is not a direct slice")
-	}
-	sl := x.term(x.val(mi.X))
-	stype, ok := mi.X.Type().Underlying().(*types.Slice)
-	if !ok {
-		x.fail("sort.Slice on non-slice")
-	}
-	less, ok := args[1].(*Closure)
-	if !ok {
-		x.fail("sort.Slice: comparator is not a closure literal")
-	}
-	hn, hs := x.heapOf(stype.Elem())
+
+// permuteSlice: the slice is permuted in place (frame obligation, fresh heap version related to
+// the old one by a permutation of the slice's indices). Returns heap name, new heap, length.
+func (x *Exec) permuteSlice(sl Term, elem types.Type, st *State) (string, Term, Term) {
+	w := x.u.W
+	hn, hs := x.heapOf(elem)
 	h := st.Heap(hn, hs)
 	n := SlLen(sl)
 	if x.frame != nil && !x.frame.any {
@@ -1034,6 +1028,64 @@ func sortSlice(x *Exec, site ssa.Instruction, fn *ssa.Function, args []Value, st
 	x.assume(Term{fmt.Sprintf("(forall ((k!q Int)) (! (=> %s %s) :pattern ((select %s %s))))", inb(k).S, fwd.S, nh.S, Elem(sl, k).S), SBool})
 	bwd := And(inb(pinvOf(k)), Eq(Select(h, Elem(sl, k)), Select(nh, Elem(sl, pinvOf(k)))), Eq(piOf(pinvOf(k)), k))
 	x.assume(Term{fmt.Sprintf("(forall ((k!q Int)) (! (=> %s %s) :pattern ((select %s %s))))", inb(k).S, bwd.S, h.S, Elem(sl, k).S), SBool})
+	return hn, nh, n
+}
+
+// sort.Ints / sort.Strings / sort.Float64s: in-place permutation, ascending afterwards.
+func sortBasic(x *Exec, site ssa.Instruction, fn *ssa.Function, args []Value, st *State) Value {
+	sl := x.term(args[0])
+	stype := site.(ssa.CallInstruction).Common().Args[0].Type().Underlying().(*types.Slice)
+	hn, nh, n := x.permuteSlice(sl, stype.Elem(), st)
+	st.SetHeap(hn, nh)
+	a := Term{"a!q", SInt}
+	b := Term{"b!q", SInt}
+	ea, eb := Select(nh, Elem(sl, a)), Select(nh, Elem(sl, b))
+	var ord Term
+	if x.u.W.SortOf(stype.Elem()) == SStr {
+		ord = Not(app(SBool, "s.lt", eb, ea))
+	} else {
+		ord = Le(ea, eb)
+	}
+	cond := And(Le(IntLit(0), a), Lt(a, b), Lt(b, n))
+	x.assume(Term{fmt.Sprintf("(forall ((a!q Int) (b!q Int)) (=> %s %s))", cond.S, ord.S), SBool})
+	return nil
+}
+
+// sort.Slice(x, less): in-place permutation, sorted w.r.t. less afterwards.
+func sortSlice(x *Exec, site ssa.Instruction, fn *ssa.Function, args []Value, st *State) Value {
+	u := x.u
+	w := u.W
+	// first arg is an interface wrapping the slice
+	ssaArg := site.(ssa.CallInstruction).Common().Args[0]
+	mi, ok := ssaArg.(*ssa.MakeInterface)
+	if !ok {
+		x.fail("sort.Slice: argument is not a direct slice")
+	}
+	sl := x.term(x.val(mi.X))
+	stype, ok := mi.X.Type().Underlying().(*types.Slice)
+	if !ok {
+		x.fail("sort.Slice on non-slice")
+	}
+	less, ok := args[1].(*Closure)
+	if !ok {
+		x.fail("sort.Slice: comparator is not a closure literal")
+	}
+	hn, nh, n := x.permuteSlice(sl, stype.Elem(), st)
+	if x.fc != nil && x.fc.Opts["sort-total"] == "yes" && !x.pure {
+		// the comparator orders every two distinct positions of the slice as it is handed to the
+		// sort: the sorted arrangement is then unique (no ties left to the sorting algorithm)
+		a := Term{"a!t", SInt}
+		b := Term{"b!t", SInt}
+		lab, err1 := x.evalClosurePure(less, []Value{a, b}, st)
+		lba, err2 := x.evalClosurePure(less, []Value{b, a}, st)
+		if err1 != nil || err2 != nil {
+			x.u.Errorf("%s: sort-total: comparator not evaluated symbolically", x.prefix)
+		} else {
+			cond := And(Le(IntLit(0), a), Lt(a, n), Le(IntLit(0), b), Lt(b, n), Not(Eq(a, b)))
+			x.obl("sort[total-on-distinct]", "sort", "the comparator decides the order of any two distinct elements (ties are not left to the sorting algorithm)", st,
+				Term{fmt.Sprintf("(forall ((a!t Int) (b!t Int)) (=> %s (or %s %s)))", cond.S, lab.S, lba.S), SBool})
+		}
+	}
 	st.SetHeap(hn, nh)
 	// safety of the comparator for indices in range (it runs inside sort.Slice)
 	if !x.pure {
